@@ -1318,6 +1318,17 @@ class ApiFn(Fn):
                     return t if x["opcode"] == "==" else "(negb %s)" % t
         return super().C(n)
 
+    def is_words0(self, x):
+        """x is `&lang->words[0]`"""
+        x = strip(x)
+        if x.get("kind") != "UnaryOperator" or x.get("opcode") != "&":
+            return False
+        y = strip(x["inner"][0])
+        if y.get("kind") != "ArraySubscriptExpr":
+            return False
+        b = strip(y["inner"][0])
+        return b.get("kind") == "MemberExpr" and b.get("name") == "words" and cval(self.E(y["inner"][1])) == 0
+
     def scan_names(self, n, acc):
         if n.get("kind") in ("VarDecl", "ParmVarDecl"):
             acc.append((n["name"], n.get("type", {}).get("qualType", "")))
@@ -1368,6 +1379,8 @@ class ApiFn(Fn):
         if k == "BinaryOperator" and n.get("opcode") == "-":
             a0 = strip(n["inner"][0])
             if a0.get("kind") == "DeclRefExpr" and self.lval_name(a0) in self.bsearch_ptrs:
+                if not self.is_words0(strip(n["inner"][1])):
+                    raise Unsupported("the result of bsearch is not measured from &words[0]")
                 return self.E(a0)      # (match - base): the result of bsearch is kept as an index, -1 for NULL
         if k == "CallExpr" and self.deps_member(n) is None:
             c0 = strip(n["inner"][0])
@@ -1404,6 +1417,8 @@ class ApiFn(Fn):
                     stack += [c for c in x.get("inner", []) if isinstance(c, dict)]
                 if kp is None or lang_ is None:
                     raise Unsupported("bsearch over something that is not a word list")
+                if not self.is_words0(base) or cval(self.E(a[3])) != 8:
+                    raise Unsupported("bsearch not over the whole word list (base &words[0], elements of pointer size)")
                 self.env("ext_bsearch", "Z -> list Z -> Z -> Z -> Z")
                 return "(ext_bsearch %s %s %s %s)" % (lang_, kp, self.E(a[2]), self.E(a[4]))
             if f in SIGS and (f not in EXTERNS or (f in API_OWN and self.name in OWN_CALLERS)):
@@ -1690,8 +1705,24 @@ class ApiFn(Fn):
                 arr = name + "_coeff"
                 self.arr_len[arr] = 16
                 self.elems[arr] = set(range(16))
+                # { a, b, ... }: the listed values, the rest zero (clang shows the omitted ones as ImplicitValueInitExpr)
+                vals_ = [0] * 16
+                inner0 = [c for c in init[0].get("inner", []) if isinstance(c, dict)]
+                lst = inner0[0] if inner0 and inner0[0].get("kind") == "InitListExpr" else init[0]
+                items = [c for c in lst.get("inner", []) if isinstance(c, dict)]
+                if lst.get("array_filler"):
+                    items = [c for c in lst["array_filler"] if isinstance(c, dict) and c.get("kind") != "ImplicitValueInitExpr"]
+                pos_ = 0
+                for c in items:
+                    if c.get("kind") == "ImplicitValueInitExpr":
+                        continue
+                    v_ = cval(self.E(c))
+                    if v_ is None or pos_ >= 16:
+                        raise Unsupported("initialiser of %s is not a list of constants" % name)
+                    vals_[pos_] = v_
+                    pos_ += 1
                 for i in range(16):
-                    self.consts["%s_%d" % (arr, i)] = 0
+                    self.consts["%s_%d" % (arr, i)] = vals_[i]
                 return "let %s : list Z := repeat 0 16 in\n" % arr + self.S(rest, k)
             if "polyseed_cmp" in qt and init:
                 pre = self.hoist(init[0])
